@@ -146,6 +146,9 @@ def make_image(rng, cls, shp, n_extra, dtype):
     if cls == "Image":
         return mi.Image(px), W, b, half
     if cls == "MaskedImage":
+        if rng.random() < 0.3:
+            mask = np.ones_like(mask)          # what as_masked() / MaskedImage(pixels) give: everything valid
+            half = (n, -1e9)
         return mi.MaskedImage(px, mask=mask), W, b, half
     return mi.BooleanImage(mask), W, b, half
 
@@ -260,6 +263,14 @@ def judge(ctx, src, res, T, W, b, half, op, opts, tol, smooth=False, margin=0.0,
             ctx.tap("mask_registration", "calls"); ctx.tap("mask_registration", "checked")
             if bad.any():
                 ctx.fail("mask_is_not_carried_by_the_same_map_as_the_pixels", cls=cls, mech=mech, n_bad=int(bad.sum()), options=opts)
+        if isinstance(src, mi.MaskedImage) and isinstance(res, mi.MaskedImage) and op != "warp_to_mask_affine":
+            # result pixels filled with the constant (they decode to -OFF) were sampled outside the source: not valid data
+            filled = np.ones(res.shape, dtype=bool)
+            for k in range(d):
+                filled &= np.abs(S[k] + OFF) < 1e-9
+            if filled.any() and np.asarray(res.mask.pixels[0])[filled].any():
+                ctx.fail("pixels_sampled_outside_the_source_are_flagged_valid_by_the_mask", cls=cls, mech=mech + (":all_true_source_mask" if src.mask.all_true() else ""),
+                         n_bad=int(np.asarray(res.mask.pixels[0])[filled].sum()), options=opts)
     else:
         # BooleanImage: through the returned transform, itself tied to the landmarks
         if T is not None:
